@@ -1066,6 +1066,8 @@ NP = {
     "linalg.det": lambda a, k, n: Unk("det"),
     "fft.ifft": t_fft, "fft.irfft": t_fft, "fft.rfft": t_fft, "fft.fft": t_fft, "seterr": t_const,
     "newaxis": None,
+    "hypot": lambda a, k, n: add(a[0], a[1], n),
+    "lib.stride_tricks.sliding_window_view": lambda a, k, n: t_expand([a[0]], {}, n),
 }
 EXTF = {
     "scipy.linalg.eig": t_eig, "scipy.linalg.inv": t_inv, "scipy.linalg.pinv": t_inv, "scipy.linalg.svd": t_svd, "scipy.linalg.qr": t_qr,
